@@ -41,7 +41,7 @@ def gen_cases(tier, seed):
     shapes = gen.enumerate_shapes(4, 6)
     if tier == 'thorough':
         idx = list(range(len(shapes)))
-        n_random = 2000
+        n_random = 20000
     else:
         idx = [i for i, (d, k, f) in enumerate(shapes)
                if k <= 3 or i % 4 == seed % 4]
